@@ -22,6 +22,7 @@ type Params struct {
 	SelfSender bool // with WithSender: the sender PID given is the target PID itself ("reply to yourself")
 	Peers      int  // 2: a second peer C; every second message of a sender goes to actor t1 on C (one writer per address)
 	NoEvents   bool // controlled leg: the sending node's event stream is detached too (the oracle then only looks at deliveries)
+	TLS        bool // both remotes are configured WithTLS (the writer dials through crypto/tls, the listener is a TLS listener)
 	Restart    bool // after the early messages arrived the peer stops (connection lost) and a new engine comes up on the same address; then Late sends
 }
 
@@ -42,6 +43,9 @@ func (p Params) String() string {
 	if p.Peers == 2 {
 		s += "peers2"
 	}
+	if p.TLS {
+		s += "tls"
+	}
 	return s
 }
 
@@ -60,6 +64,7 @@ var Up = []Params{
 	{Senders: 1, PerT: 1, Targets: 1, Late: 1, Restart: true, NoEvents: true},
 	{Senders: 1, PerT: 4, Targets: 2, WithSender: true, Peers: 2},
 	{Senders: 1, PerT: 4, Targets: 1, WithSender: true, SameID: true},
+	{Senders: 1, PerT: 2, Targets: 1, WithSender: true, TLS: true},
 }
 
 var Dn = []Params{
@@ -67,6 +72,7 @@ var Dn = []Params{
 	{Senders: 2, PerT: 1, Targets: 2, FailDials: 3, Late: 1, WithSender: true},
 	{Senders: 1, PerT: 1, Targets: 1, FailDials: 6, Late: 2},
 	{Senders: 1, PerT: 2, Targets: 1, FailDials: 3, Late: 2},
+	{Senders: 1, PerT: 2, Targets: 1, FailDials: 3, Late: 1, TLS: true},
 }
 
 var UpLarge = append([]Params{
